@@ -120,6 +120,13 @@ func (r *run) makeFn(expireProb int) func(ctx context.Context) *rueidis.VerifWir
 	}
 }
 
+// guard turns a panic inside the pool (e.g. Close on a nil list entry) into a violation instead of killing the driver.
+func (r *run) guard(rep *vh.Report, who string) {
+	if e := recover(); e != nil {
+		rep.Violate("pool-panic", fmt.Sprintf("%s: panic inside the pool: %v", who, e), r.tr.Events())
+	}
+}
+
 func (r *run) poolDown() bool { _, _, d := r.pool.Snapshot(); return d }
 
 func newRun(seed int64, cap, minSize, expireProb int, yield bool) *run {
@@ -154,6 +161,7 @@ func stress(rep *vh.Report, group int, cap, minSize, nprocs int, nruns int) [][]
 			prng := rand.New(rand.NewSource(seed*31 + int64(p)))
 			go func(p int) {
 				defer wg.Done()
+				defer r.guard(rep, fmt.Sprintf("acquirer %d", p))
 				r.procs.Store(vh.GoID(), p)
 				cancelable := p%2 == 1
 				for k := 0; k < nacq; k++ {
@@ -227,6 +235,7 @@ func stress(rep *vh.Report, group int, cap, minSize, nprocs int, nruns int) [][]
 			wg.Add(1)
 			go func() {
 				defer wg.Done()
+				defer r.guard(rep, "Close")
 				time.Sleep(time.Duration(r.rnd(4000)) * time.Microsecond)
 				r.pool.Close()
 			}()
@@ -234,6 +243,7 @@ func stress(rep *vh.Report, group int, cap, minSize, nprocs int, nruns int) [][]
 		wg.Add(1)
 		go func() {
 			defer wg.Done()
+			defer r.guard(rep, "removeIdleConns")
 			for j := 0; j < 2; j++ {
 				time.Sleep(time.Duration(r.rnd(3000)) * time.Microsecond)
 				r.pool.RemoveIdle()
